@@ -21,8 +21,8 @@ Proof. unfold len. intros H. rewrite skipn_length. lia. Qed.
 Lemma len_spaces n : len (spaces n) = Z.max 0 n.
 Proof. unfold len, spaces. rewrite repeat_length. lia. Qed.
 
-Ltac fs := cbn [md size fsz p cur total err out viol term tr put poke poke0 set_err set_viol trace negb andb orb].
-Tactic Notation "fs" "in" hyp(H) := cbn [md size fsz p cur total err out viol term tr put poke poke0 set_err set_viol trace negb andb orb] in H.
+Ltac fs := cbn [md size fsz p cur total err out viol term tr orc obad put poke poke0 set_err set_viol trace negb andb orb].
+Tactic Notation "fs" "in" hyp(H) := cbn [md size fsz p cur total err out viol term tr orc obad put poke poke0 set_err set_viol trace negb andb orb] in H.
 
 (* ---------------------------------------------------------------- field lemmas for puts *)
 Lemma puts_cons s a l : puts s (a :: l) = puts (put s a) l. Proof. reflexivity. Qed.
@@ -38,6 +38,10 @@ Proof. revert s; induction l as [|a l IH]; intros s; [reflexivity|]. rewrite put
 Lemma puts_err s l : err (puts s l) = err s.
 Proof. revert s; induction l as [|a l IH]; intros s; [reflexivity|]. rewrite puts_cons, IH. reflexivity. Qed.
 Lemma puts_out s l : out (puts s l) = out s.
+Proof. revert s; induction l as [|a l IH]; intros s; [reflexivity|]. rewrite puts_cons, IH. reflexivity. Qed.
+Lemma puts_orc s l : orc (puts s l) = orc s.
+Proof. revert s; induction l as [|a l IH]; intros s; [reflexivity|]. rewrite puts_cons, IH. reflexivity. Qed.
+Lemma puts_obad s l : obad (puts s l) = obad s.
 Proof. revert s; induction l as [|a l IH]; intros s; [reflexivity|]. rewrite puts_cons, IH. reflexivity. Qed.
 Lemma puts_tr s l : tr (puts s l) = tr s.
 Proof. revert s; induction l as [|a l IH]; intros s; [reflexivity|]. rewrite puts_cons, IH. reflexivity. Qed.
@@ -79,7 +83,9 @@ Record Inv (sl : Z) (s : st) : Prop := mkInv {
   i_buf : md s <> File -> fsz s = size s - RSV C;
   i_file : md s = File -> RSV C <= fsz s;
   i_cur : p s = len (cur s);
-  i_prog : fix_progress C = true \/ (md s = Fixed -> 0 < fsz s)
+  i_prog : fix_progress C = true \/ 0 < fsz s \/ (md s = Dynamic /\ nofail (orc s) = true);
+  i_orc : md s = Dynamic -> good_orc (RSV C) (size s) (orc s);
+  i_obad : obad s = false
 }.
 
 Lemma inv_weaken sl sl' s : Inv sl s -> sl <= sl' -> Inv sl' s.
@@ -110,7 +116,7 @@ Qed.
 Lemma inv_puts sl sl' s l : Inv sl s -> 0 <= sl' <= RSV C -> p s + len l <= fsz s + sl' -> Inv sl' (puts s l).
 Proof.
   intros [] H1 H2. pose proof (len_nonneg l).
-  constructor; rewrite ?puts_md, ?puts_size, ?puts_fsz, ?puts_p, ?puts_cur; try assumption; try lia.
+  constructor; rewrite ?puts_md, ?puts_size, ?puts_fsz, ?puts_p, ?puts_cur, ?puts_orc, ?puts_obad; try assumption; try lia.
   - apply puts_viol; [assumption|assumption|lia].
   - rewrite len_app, len_rev. lia.
 Qed.
@@ -121,6 +127,18 @@ Proof. intros []. constructor; fs; assumption. Qed.
 Lemma inv_trace sl s : Inv sl s -> Inv sl (trace s).
 Proof. intros []. constructor; fs; assumption. Qed.
 
+(* the block the oracle (or the pinned policy) hands back next is either a failure or restores a full reserve *)
+Lemma next_size_ok s : md s = Dynamic -> good_orc (RSV C) (size s) (orc s) -> RSV C <= size s ->
+  (fails s = true /\ nofail (orc s) = false /\ good_orc (RSV C) (size s) (tl (orc s))) \/
+  (fails s = false /\ size s + RSV C <= next_size s /\ good_orc (RSV C) (next_size s) (tl (orc s))).
+Proof.
+  intros Hm Hg Hs. unfold next_size, fails. destruct (orc s) as [|n t] eqn:E; cbn [tl].
+  - right. split; [reflexivity|]. split; [lia|exact I].
+  - cbn [good_orc] in Hg. destruct (n =? 0) eqn:En.
+    + left. split; [reflexivity|]. split; [|exact Hg]. cbn [nofail forallb]. rewrite En. reflexivity.
+    + right. split; [reflexivity|exact Hg].
+Qed.
+
 (* every flush brings p back to at most pflush *)
 Lemma inv_flush sl s all : Inv sl s -> 0 <= sl -> sl + 1 <= RSV C -> Inv 0 (flushc C all s).
 Proof.
@@ -129,28 +147,38 @@ Proof.
   destruct (md s1) eqn:Em.
   - (* Fixed *)
     unfold flush_fixed. destruct (fsz s1 <=? p s1) eqn:E.
-    + destruct HI. apply inv_poke0; [|lia]. constructor; fs; try assumption; try lia. reflexivity.
+    + destruct HI. apply inv_poke0; [|lia]. constructor; fs; try assumption; try lia; try reflexivity.
     + apply inv_poke0; [|lia]. apply inv_tighten with sl; [assumption|lia].
   - (* Dynamic *)
     unfold flush_dyn. destruct (p s1 <? fsz s1) eqn:E.
     + apply inv_poke0; [|lia]. apply inv_tighten with sl; [assumption|lia].
     + pose proof (inv_poke0 _ _ HI H) as HP. destruct HI.
-      assert (fsz s1 = size s1 - RSV C) by (apply i_buf0; congruence).
-      apply inv_poke0; [|lia]. constructor; fs; try assumption; try lia.
-      destruct HP. exact i_viol1.
+      assert (Hf : fsz s1 = size s1 - RSV C) by (apply i_buf0; congruence).
+      destruct (next_size_ok s1 Em (i_orc0 Em) ltac:(lia)) as [(Hn & Hnf & Hg)|(Hn & Hz & Hg)]; rewrite Hn.
+      * (* allocation failure: error, content dropped, old block kept *)
+        apply inv_poke0; [|lia].
+        constructor; fs; try assumption; try lia; try reflexivity.
+        -- destruct HP. exact i_viol1.
+        -- destruct i_prog0 as [Hp|[Hp|[_ Hp]]]; [left; exact Hp|right; left; exact Hp|congruence].
+        -- intros _. exact Hg.
+      * apply inv_poke0; [|lia]. constructor; fs; try assumption; try lia.
+        -- destruct HP. exact i_viol1.
+        -- intros _. exact Hg.
+        -- rewrite i_obad0. cbn [orb]. assert (Q : (size s1 + RSV C <=? next_size s1) = true) by lia. rewrite Q. reflexivity.
   - (* File *)
     unfold flush_file. destruct (negb all && (fsz s1 <=? p s1)) eqn:E.
     + destruct HI. assert (RSV C <= fsz s1) by auto.
       apply inv_poke0; [|lia]. constructor; fs; try assumption; try lia.
       unfold len. rewrite firstn_length. unfold len in i_cur0. lia.
-    + destruct HI. apply inv_poke0; [|lia]. constructor; fs; try assumption; try lia. reflexivity.
+    + destruct HI. apply inv_poke0; [|lia]. constructor; fs; try assumption; try lia; try reflexivity.
 Qed.
 
-(* a flush called with p at or above pflush leaves room, except for the fixed buffer without flush area,
-   where it leaves an error *)
+(* a flush called with p at or above pflush leaves room; the exceptions - a fixed buffer without flush area, a
+   growing buffer of exactly the reserve whose enlargement fails - leave an error, and only the repaired loops
+   get there *)
 Lemma flush_room sl s : Inv sl s -> 0 <= sl -> sl + 1 <= RSV C -> fsz s <= p s ->
   let s' := flushc C false s in
-  p s' < fsz s' \/ (p s' = fsz s' /\ err s' <> 0 /\ md s' = Fixed /\ fsz s' = 0).
+  p s' < fsz s' \/ (p s' = fsz s' /\ err s' <> 0 /\ fsz s' = 0 /\ fix_progress C = true).
 Proof.
   intros HI H0 H Hp. destruct HI. unfold flushc. fs.
   destruct (md s) eqn:Em; fs.
@@ -158,11 +186,20 @@ Proof.
     assert (E : (fsz s <=? p s) = true) by lia. rewrite E. fs.
     destruct (Z.eq_dec (fsz s) 0) as [Z|Z].
     + right. repeat split; try lia; try assumption.
-      destruct (err s =? 0) eqn:Ee; [unfold PE_overflow; lia|lia].
+      * destruct (err s =? 0) eqn:Ee; [unfold PE_overflow; lia|lia].
+      * destruct i_prog0 as [Hq|[Hq|[Hq _]]]; [exact Hq|lia|congruence].
     + left. lia.
   - unfold flush_dyn. fs. rewrite Em. fs.
     assert (E : (p s <? fsz s) = false) by lia. rewrite E. fs.
-    assert (fsz s = size s - RSV C) by (apply i_buf0; congruence). left. lia.
+    assert (Hf : fsz s = size s - RSV C) by (apply i_buf0; congruence).
+    assert (Hn : next_size (trace s) = next_size s) by reflexivity. rewrite Hn.
+    assert (Hfl : fails (trace s) = fails s) by reflexivity. rewrite Hfl.
+    destruct (next_size_ok s Em (i_orc0 eq_refl) ltac:(lia)) as [(Hz & Hnf & _)|(Hz & Hge & _)]; rewrite Hz; fs.
+    + destruct (Z.eq_dec (fsz s) 0) as [Z|Z]; [|left; lia].
+      right. repeat split; try lia.
+      * destruct (err s =? 0) eqn:Ee; [unfold PE_overflow; lia|lia].
+      * destruct i_prog0 as [Hq|[Hq|[_ Hq]]]; [exact Hq|lia|congruence].
+    + left. lia.
   - unfold flush_file. fs. rewrite Em. fs.
     assert (E : (fsz s <=? p s) = true) by lia. rewrite E. fs.
     assert (RSV C <= fsz s) by auto. left. lia.
@@ -200,10 +237,9 @@ Proof.
         rewrite G. apply IH; [assumption|assumption|].
         rewrite Hs. assert ((fsz s2 - p s2 =? 0) = false) by lia. rewrite H.
         destruct (k =? 0) eqn:Ek; lia.
-      * destruct HI2. destruct i_prog1 as [Hfp|Hfp]; [|specialize (Hfp Hc); lia].
-        rewrite Hfp. assert ((fsz s2 - p s2 =? 0) = true) by lia. rewrite H.
+      * rewrite Hd. assert ((fsz s2 - p s2 =? 0) = true) by lia. rewrite H.
         assert ((err s2 =? 0) = false) by lia. rewrite H0. cbn [andb negb].
-        exists s2. split; [reflexivity|]. constructor; try assumption. left; assumption.
+        exists s2. split; [reflexivity|assumption].
     + eexists. split; [reflexivity|]. apply inv_puts with 0; [assumption|lia|lia].
 Qed.
 
@@ -362,7 +398,10 @@ Proof.
     + apply sticky_poke0.
   - unfold flush_dyn. destruct (p s <? fsz s).
     + apply sticky_poke0.
-    + eapply sticky_trans; [|apply sticky_poke0]. split; fs; [apply wr_false|auto].
+    + destruct (fails s).
+      * eapply sticky_trans; [|apply sticky_poke0]. split; fs; [apply wr_false|].
+        destruct (err s =? 0) eqn:E; [unfold PE_overflow|]; lia.
+      * eapply sticky_trans; [|apply sticky_poke0]. split; fs; [apply wr_false|auto].
   - unfold flush_file. destruct (negb all && (fsz s <=? p s));
       (eapply sticky_trans; [|apply sticky_poke0]); split; fs; auto.
 Qed.
@@ -418,7 +457,10 @@ Proof.
   - unfold flush_fixed. apply K_poke0. destruct (fsz s <=? p s).
     + intros _. fs. rewrite He. cbn [Z.eqb]. unfold PE_overflow. lia.
     + exact H.
-  - unfold flush_dyn. destruct (p s <? fsz s); apply K_poke0; [exact H|]. intros _ _; fs; auto.
+  - unfold flush_dyn. destruct (p s <? fsz s); [apply K_poke0; exact H|].
+    destruct (fails s); apply K_poke0.
+    + intros _. fs. rewrite He. cbn [Z.eqb]. unfold PE_overflow. lia.
+    + intros _ _; fs; auto.
   - unfold flush_file. apply K_poke0. destruct (negb all && (fsz s <=? p s)); intros _ _; fs.
     + rewrite app_assoc, firstn_skipn. split; [assumption|lia].
     + rewrite app_nil_l. split; [assumption|lia].
@@ -538,7 +580,9 @@ Proof.
   - unfold flush_fixed. destruct (fsz s <=? p s); fs; rewrite ?Em; intros N; destruct (H N) as [A B0].
     + split; [assumption|]. destruct (err s =? 0) eqn:E; [unfold PE_overflow|]; lia.
     + auto.
-  - unfold flush_dyn. destruct (p s <? fsz s); fs; rewrite ?Em; auto.
+  - unfold flush_dyn. destruct (p s <? fsz s); fs; rewrite ?Em; [auto|].
+    destruct (fails s); fs; rewrite ?Em; [|auto]. intros N. destruct (H N) as [A B0].
+    split; [assumption|]. destruct (err s =? 0) eqn:E; [unfold PE_overflow|]; lia.
   - unfold flush_file. destruct (negb all && (fsz s <=? p s)); fs; rewrite Em; intros N; congruence.
 Qed.
 
@@ -600,7 +644,7 @@ Proof.
   unfold flushc. cbv zeta. generalize (trace s). clear s. intros s.
   destruct (md s); [unfold flush_fixed|unfold flush_dyn|unfold flush_file]; fs.
   - reflexivity.
-  - destruct (p s <? fsz s); reflexivity.
+  - destruct (p s <? fsz s); [reflexivity|]. destruct (fails s); reflexivity.
   - reflexivity.
 Qed.
 
@@ -695,7 +739,8 @@ Proof.
     revert H1' H2'. generalize (trace s). clear s H1 H2. intros s H1 H2.
     destruct (md s) eqn:Em.
     + unfold flush_fixed. destruct (fsz s <=? p s); fs; rewrite ?Em; auto.
-    + unfold flush_dyn. destruct (p s <? fsz s); fs; rewrite ?Em; [auto|]. split; [auto|]. intros N. congruence.
+    + unfold flush_dyn. destruct (p s <? fsz s); fs; rewrite ?Em; [auto|].
+      destruct (fails s); fs; rewrite ?Em; [auto|]. split; [auto|]. intros N. congruence.
     + unfold flush_file. destruct (negb all && (fsz s <=? p s)); fs; rewrite ?Em; auto.
 Qed.
 
@@ -750,32 +795,45 @@ Qed.
 End Fits.
 
 (* ================================================================ initial states *)
-Lemma init_inv C m sz : 1 <= RSV C ->
-  (m = Fixed -> RSV C <= sz /\ (fix_progress C = true \/ RSV C < sz)) ->
-  (m = File -> PRINT_FLUSH_SIZE + RSV C <= PRINT_BUFFER_SIZE /\ RSV C <= PRINT_FLUSH_SIZE) ->
-  Inv C 0 (init C m sz).
+Lemma dyn_size_ge C sz : RSV C <= dyn_size C sz.
 Proof.
-  intros HR HF HFile. destruct m; unfold init.
-  - destruct (HF eq_refl) as [H1 H2]. constructor; fs; try lia; try reflexivity.
-    + intros N; discriminate.
-    + destruct H2; [left; assumption|right; intros; lia].
-  - set (sz1 := if sz =? 0 then PRINT_DYN_BUFFER_SIZE else sz).
-    set (sz2 := if sz1 <? RSV C then RSV C else sz1).
-    assert (RSV C <= sz2) by (unfold sz2; destruct (sz1 <? RSV C) eqn:E; lia).
-    constructor; fs; try lia; try reflexivity.
-    + intros N; discriminate.
-    + right; intros N; discriminate.
-  - destruct (HFile eq_refl) as [H1 H2]. constructor; fs; try lia; try reflexivity.
-    + intros N. exfalso. apply N. reflexivity.
+  unfold dyn_size. set (sz1 := if sz =? 0 then PRINT_DYN_BUFFER_SIZE else sz).
+  destruct (sz1 <? RSV C) eqn:E; lia.
 Qed.
 
-Lemma init_K C m sz : K (init C m sz) [].
+(* the oracle is acceptable for a growing buffer started with sz: every block is the previous plus a reserve;
+   the pinned code (no give-up test in print_ex) additionally needs it free of failures *)
+Definition orc_ok (C : cfg) (m : pmode) (sz : Z) (o : list Z) : Prop :=
+  m = Dynamic -> good_orc (RSV C) (dyn_size C sz) o /\ (fix_progress C = true \/ nofail o = true).
+
+Lemma init_inv C m sz o : 1 <= RSV C ->
+  (m = Fixed -> RSV C <= sz /\ (fix_progress C = true \/ RSV C < sz)) ->
+  (m = File -> PRINT_FLUSH_SIZE + RSV C <= PRINT_BUFFER_SIZE /\ RSV C <= PRINT_FLUSH_SIZE) ->
+  orc_ok C m sz o ->
+  Inv C 0 (init C m sz o).
+Proof.
+  intros HR HF HFile HO. destruct m; unfold init.
+  - destruct (HF eq_refl) as [H1 H2]. constructor; fs; try lia; try reflexivity.
+    + intros N; discriminate.
+    + destruct H2; [left; assumption|right; left; lia].
+    + intros N; discriminate.
+  - pose proof (dyn_size_ge C sz). destruct (HO eq_refl) as [G1 G2].
+    constructor; fs; try lia; try reflexivity.
+    + intros N; discriminate.
+    + destruct G2; [left; assumption|right; right; split; [reflexivity|assumption]].
+    + intros _. exact G1.
+  - destruct (HFile eq_refl) as [H1 H2]. constructor; fs; try lia; try reflexivity.
+    + intros N. exfalso. apply N. reflexivity.
+    + intros N; discriminate.
+Qed.
+
+Lemma init_K C m sz o : K (init C m sz o) [].
 Proof. destruct m; unfold init; intros _ _; fs; split; reflexivity. Qed.
 
-Lemma init_B C m sz : B (init C m sz).
+Lemma init_B C m sz o : B (init C m sz o).
 Proof. destruct m; unfold init, B; fs; intros _; split; auto. Qed.
 
-Lemma init_md C m sz : md (init C m sz) = m.
+Lemma init_md C m sz o : md (init C m sz o) = m.
 Proof. destruct m; reflexivity. Qed.
 
 (* ================================================================ the statements used by Properties_C11 *)
@@ -787,23 +845,23 @@ Definition std (C : cfg) : Prop :=
 Definition size_ok (C : cfg) (m : pmode) (sz : Z) : Prop :=
   m = Fixed -> RSV C <= sz /\ (fix_progress C = true \/ RSV C < sz).
 
-Theorem no_overrun_terminates C ops m sz sl' :
-  std C -> size_ok C m sz -> chk C 0 ops = Some sl' ->
-  exists s', run C ops (init C m sz) = Some s' /\ viol s' = false.
+Theorem no_overrun_terminates C ops m sz o sl' :
+  std C -> size_ok C m sz -> orc_ok C m sz o -> chk C 0 ops = Some sl' ->
+  exists s', run C ops (init C m sz o) = Some s' /\ viol s' = false /\ obad s' = false.
 Proof.
-  intros (H1 & H2 & H3) Hs Hc.
-  destruct (run_ok C ops 0 sl' (init C m sz)) as (s' & E & HI); [apply init_inv; auto|lia|assumption|].
-  exists s'. split; [assumption|]. destruct HI. assumption.
+  intros (H1 & H2 & H3) Hs Ho Hc.
+  destruct (run_ok C ops 0 sl' (init C m sz o)) as (s' & E & HI); [apply init_inv; auto|lia|assumption|].
+  exists s'. split; [assumption|]. destruct HI. split; assumption.
 Qed.
 
-Theorem output_is_text C ops m sz s' :
-  run C ops (init C m sz) = Some s' -> viol s' = false -> err s' = 0 ->
+Theorem output_is_text C ops m sz o s' :
+  run C ops (init C m sz o) = Some s' -> viol s' = false -> err s' = 0 ->
   r_text (observe s') = text ops /\ r_ret (observe s') = len (text ops) /\
   (m <> File -> cur s' = rev (text ops) /\ p s' = len (text ops) /\ out s' = [] /\ total s' = 0).
 Proof.
   intros E Hv He.
-  destruct (K_run C ops _ [] s' (init_K C m sz) E Hv He) as [A B0]. rewrite app_nil_l in *.
-  pose proof (B_run C ops _ s' (init_B C m sz) E) as HB.
+  destruct (K_run C ops _ [] s' (init_K C m sz o) E Hv He) as [A B0]. rewrite app_nil_l in *.
+  pose proof (B_run C ops _ s' (init_B C m sz o) E) as HB.
   destruct (M_run C ops _ s' E) as [Hm _]. rewrite init_md in Hm.
   unfold observe. cbn [r_text r_ret]. rewrite frev_rev, A, rev_involutive, He. cbn [Z.eqb]. repeat split; auto.
   - destruct (HB ltac:(congruence)) as [O T]. rewrite O, app_nil_r in A. exact A.
@@ -812,51 +870,59 @@ Proof.
   - apply HB; [congruence|assumption].
 Qed.
 
-Theorem ends_terminated C ops m sz s' :
-  run C (ops ++ [PFlushAll]) (init C m sz) = Some s' -> term s' = true.
+Theorem ends_terminated C ops m sz o s' :
+  run C (ops ++ [PFlushAll]) (init C m sz o) = Some s' -> term s' = true.
 Proof.
-  rewrite run_app. destruct (run C ops (init C m sz)) as [s1|]; [|discriminate].
+  rewrite run_app. destruct (run C ops (init C m sz o)) as [s1|]; [|discriminate].
   cbn [run step]. intros E; some_inj E; subst. apply flush_term.
 Qed.
 
-(* a growing buffer or a file never reports an error of its own (realloc succeeding) *)
-Theorem growing_never_overflows C ops m sz s' :
-  m <> Fixed -> no_perr ops = true -> run C ops (init C m sz) = Some s' -> err s' = 0.
+Lemma nofail_tl l : nofail l = true -> nofail (tl l) = true.
+Proof. destruct l; [auto|]. cbn [nofail forallb tl]. intros H. apply andb_true_iff in H. apply H. Qed.
+
+(* a growing buffer whose enlargements all succeed, and a file, never report an error of their own *)
+Theorem growing_never_overflows C ops m sz o s' :
+  m <> Fixed -> nofail o = true -> no_perr ops = true -> run C ops (init C m sz o) = Some s' -> err s' = 0.
 Proof.
-  intros Hm Hn E.
-  assert (Q : md s' <> Fixed /\ err s' = 0); [|tauto].
-  revert E. apply (Q_run C (fun s => md s <> Fixed /\ err s = 0)); try (intros; fs; tauto).
-  - intros all s [H1 H2]. unfold flushc. cbv zeta.
+  intros Hm Ho Hn E.
+  assert (Q : md s' <> Fixed /\ err s' = 0 /\ nofail (orc s') = true); [|tauto].
+  revert E. apply (Q_run C (fun s => md s <> Fixed /\ err s = 0 /\ nofail (orc s) = true)); try (intros; fs; tauto).
+  - intros all s (H1 & H2 & H3). unfold flushc. cbv zeta.
     assert (H1' : md (trace s) <> Fixed) by exact H1. assert (H2' : err (trace s) = 0) by exact H2.
-    revert H1' H2'. generalize (trace s). clear. intros s H1 H2.
+    assert (H3' : nofail (orc (trace s)) = true) by exact H3.
+    revert H1' H2' H3'. generalize (trace s). clear. intros s H1 H2 H3.
     destruct (md s) eqn:Em; [congruence| |].
-    + unfold flush_dyn. destruct (p s <? fsz s); fs; rewrite ?Em; auto.
+    + unfold flush_dyn. destruct (p s <? fsz s); fs; rewrite ?Em; [auto|].
+      destruct (fails s) eqn:En; fs; rewrite ?Em.
+      * exfalso. unfold fails in En. destruct (orc s) as [|n t]; [discriminate|].
+        cbn [nofail forallb] in H3. apply andb_true_iff in H3. destruct H3 as [H3 _]. lia.
+      * repeat split; auto. apply nofail_tl. exact H3.
     + unfold flush_file. destruct (negb all && (fsz s <=? p s)); fs; rewrite ?Em; auto.
-  - rewrite init_md. split; [assumption|]. destruct m; reflexivity.
+  - rewrite init_md. split; [assumption|]. destruct m; split; try reflexivity; exact Ho.
 Qed.
 
 Lemma text_flushall ops : text (ops ++ [PFlushAll]) = text ops.
 Proof. rewrite text_app. cbn [text flat_map bytes]. rewrite !app_nil_r. reflexivity. Qed.
 
-Theorem fixed_success_iff_fits C ops sz s' :
-  no_perr ops = true -> run C (ops ++ [PFlushAll]) (init C Fixed sz) = Some s' -> viol s' = false ->
+Theorem fixed_success_iff_fits C ops sz o s' :
+  no_perr ops = true -> run C (ops ++ [PFlushAll]) (init C Fixed sz o) = Some s' -> viol s' = false ->
   (err s' = 0 <-> len (text ops) < sz - RSV C).
 Proof.
   intros Hn E Hv. rewrite run_app in E.
-  destruct (run C ops (init C Fixed sz)) as [s1|] eqn:E1; [|discriminate].
+  destruct (run C ops (init C Fixed sz o)) as [s1|] eqn:E1; [|discriminate].
   cbn [run step] in E. some_inj E; subst s'.
   destruct (M_run C ops _ s1 E1) as [Hm Hf]. rewrite init_md in Hm. specialize (Hf eq_refl).
   assert (Hf0 : fsz s1 = sz - RSV C) by (rewrite Hf; reflexivity).
   split.
   - intros He. destruct (sticky_flush C true s1) as [S1 S2].
     pose proof (fixed_final C s1 Hm (S2 He)) as [F1 _]. specialize (F1 He).
-    destruct (K_run C ops _ [] s1 (init_K C Fixed sz) E1 (S1 Hv) (S2 He)) as [_ B0]. rewrite app_nil_l in B0.
-    pose proof (B_run C ops _ s1 (init_B C Fixed sz) E1) as HB.
+    destruct (K_run C ops _ [] s1 (init_K C Fixed sz o) E1 (S1 Hv) (S2 He)) as [_ B0]. rewrite app_nil_l in B0.
+    pose proof (B_run C ops _ s1 (init_B C Fixed sz o) E1) as HB.
     destruct (HB ltac:(congruence)) as [_ T]. rewrite (T (S2 He)) in B0. lia.
-  - intros Hl. destruct (fit_run C ops (init C Fixed sz) eq_refl eq_refl Hn) as (s2 & E2 & He2 & Hp2).
-    { change (p (init C Fixed sz)) with 0. change (fsz (init C Fixed sz)) with (sz - RSV C). lia. }
+  - intros Hl. destruct (fit_run C ops (init C Fixed sz o) eq_refl eq_refl Hn) as (s2 & E2 & He2 & Hp2).
+    { change (p (init C Fixed sz o)) with 0. change (fsz (init C Fixed sz o)) with (sz - RSV C). lia. }
     rewrite E1 in E2. some_inj E2; subst s2.
-    apply (fixed_final C s1 Hm He2). change (p (init C Fixed sz)) with 0 in Hp2. lia.
+    apply (fixed_final C s1 Hm He2). change (p (init C Fixed sz o)) with 0 in Hp2. lia.
 Qed.
 
 (* ================================================================ the pinned code does not always terminate *)
